@@ -29,11 +29,11 @@ use super::*;
 }
 pub mod mul {
 use super::*;
-//@@ SIG integer/mul/multiply.rs
+//@@ SIG integer/mul_algos/multiply.rs
 }
 pub mod sqr {
 use super::*;
-//@@ SIG integer/sqr/sqr.rs
+//@@ SIG integer/mul_algos/sqr.rs
 }
 pub mod div {
 use super::*;
